@@ -41,6 +41,12 @@ structure Frame where
   param : Int := 0
   /-- the local `state` of decsc()/decrc() -/
   state : Saved := {}
+  /-- sgr(): the parameter list after `if len(params) == 0 { params = [][]int{{0}} }` -/
+  pmOv : Option (List Param) := none
+  /-- sgr(): `params[i]`, `params[i+1:]` and the extra increment of `i` in the current iteration of `forSgr` -/
+  curP : Param := (0, [])
+  restP : List Param := []
+  skip : Nat := 0
 
 def Frame.get (s : Frame) : Loc → Int
   | .curRow => s.e.cur.row
@@ -87,12 +93,32 @@ def evalEx (pm : List Param) (s : Frame) (lvs : List Int) : Ex → Int
   | .param0 => s.param
   | .lenOld => s.old.length
   | .lenOld0 => oldWidth s.old
+  | .cur k => match k with
+    | 0 => s.curP.1
+    | k + 1 => s.curP.2.getD k 0
+  | .nxt j k => match s.restP[j - 1]? with
+    | none => 0
+    | some p => match k with
+      | 0 => p.1
+      | k + 1 => p.2.getD k 0
+  | .lenCur => s.curP.len
+  | .lenFrom => s.restP.length + 1
 
 /-- every `pm[k][0]` inside the expression is in range -/
 def exOk (pm : List Param) : Ex → Bool
   | .add a b => exOk pm a && exOk pm b
   | .sub a b => exOk pm a && exOk pm b
   | .pm k => decide (k < pm.length)
+  | _ => true
+
+/-- every index expression into the parameter list relative to `i` is in range -/
+def exOkS (s : Frame) : Ex → Bool
+  | .add a b => exOkS s a && exOkS s b
+  | .sub a b => exOkS s a && exOkS s b
+  | .cur k => decide (k < s.curP.len)
+  | .nxt j k => decide (1 ≤ j) && (match s.restP[j - 1]? with
+    | none => false
+    | some p => decide (k < p.len))
   | _ => true
 
 def evalCmp (op : Cmp) (a b : Int) : Bool :=
@@ -117,6 +143,13 @@ def evalBnd (pm : List Param) (s : Frame) (lvs : List Int) : Bnd → Int
   | .lt e => evalEx pm s lvs e - 1
   | .le e => evalEx pm s lvs e
   | .both a b => min (evalBnd pm s lvs a) (evalBnd pm s lvs b)
+
+def condOkS (s : Frame) : Cond → Bool
+  | .cmp _ a b => exOkS s a && exOkS s b
+  | .and a b => condOkS s a && condOkS s b
+  | .or a b => condOkS s a && condOkS s b
+  | .not a => condOkS s a
+  | _ => true
 
 inductive Sig where
   | norm | brk | cont | ret
@@ -217,6 +250,16 @@ def evalG (pm : List Param) (s : Frame) : Stmt → List Int → Grid → M (Grid
   | .setMode _ _, _, g => .ok (g, .norm)     -- excluded by `wf`
   | .forParams _, _, g => .ok (g, .norm)     -- excluded by `wf`
   | .reply, _, g => .ok (g, .norm)           -- excluded by `wf`
+  | .pmDefault0, _, g => .ok (g, .norm)      -- excluded by `wf`
+  | .forSgr _, _, g => .ok (g, .norm)        -- excluded by `wf`
+  | .skipParams _, _, g => .ok (g, .norm)    -- excluded by `wf`
+  | .attrOn _, _, g => .ok (g, .norm)        -- excluded by `wf`
+  | .attrOff _, _, g => .ok (g, .norm)       -- excluded by `wf`
+  | .attrClear, _, g => .ok (g, .norm)       -- excluded by `wf`
+  | .setCol _ _, _, g => .ok (g, .norm)      -- excluded by `wf`
+  | .setUl _, _, g => .ok (g, .norm)         -- excluded by `wf`
+  | .logErr, _, g => .ok (g, .norm)          -- excluded by `wf`
+  | .iteP _ _ _, _, g => .ok (g, .norm)      -- excluded by `wf`
   | .forS _ _ _ _, _, g => .ok (g, .norm)    -- excluded by `wf`
   | .loadOldCell _ _, _, g => .ok (g, .norm) -- excluded by `wf`
   | .penFromCell, _, g => .ok (g, .norm)     -- excluded by `wf`
@@ -282,6 +325,20 @@ def bndReadsOld0 : Bnd → Bool
 def rangeStep (first limit step : Nat) : List Int :=
   if step = 0 then [] else (List.range ((limit - first + step - 1) / step)).map (fun k => ((first + k * step : Nat) : Int))
 
+/-- sgr(): the walk over the parameter list; `fuel` bounds the number of iterations (each consumes at least one parameter) -/
+def sgrWalk (body : Param → List Param → Frame → M (Frame × Sig)) : Nat → List Param → Frame → M Frame
+  | 0, _, s => .ok s
+  | _, [], s => .ok s
+  | fuel + 1, p :: rest, s => do
+    let r ← body p rest s
+    if r.2 = .ret ∨ r.2 = .brk then .ok r.1 else sgrWalk body fuel (rest.drop r.1.skip) r.1
+
+def setPenCol (st : EStyle) (slot : Slot) (c : Nat) : EStyle :=
+  match slot with
+  | .fg => { st with fg := c }
+  | .bg => { st with bg := c }
+  | .ul => { st with ul := c }
+
 /-- Statements at function level. -/
 def evalS (pm : List Param) : Stmt → Frame → M (Frame × Sig)
   | .skip, s => .ok (s, .norm)
@@ -339,6 +396,31 @@ def evalS (pm : List Param) : Stmt → Frame → M (Frame × Sig)
     let e' ← print Fixes.current s.e s.cell.g s.cell.w
     .ok ({ s with e := e' }, .norm)
   | .assignCellWrapped k, s => .ok (s.set (.var k) (if s.cell.wrapped then 1 else 0), .norm)
+  | .pmDefault0, s => .ok ((if pm.isEmpty then { s with pmOv := some [((0 : Int), ([] : List Int))] } else s), .norm)
+  | .forSgr body, s => do
+    let l := s.pmOv.getD pm
+    let s' ← sgrWalk (fun p rest s => evalS pm body { s with curP := p, restP := rest, skip := 0 }) (l.length + 1) l s
+    .ok (s', .norm)
+  | .skipParams c, s => .ok ({ s with skip := s.skip + c }, .norm)
+  | .attrOn bit, s => .ok ({ s with e := { s.e with cur := { s.e.cur with st := attrOn s.e.cur.st bit } } }, .norm)
+  | .attrOff bit, s => .ok ({ s with e := { s.e with cur := { s.e.cur with st := attrOff s.e.cur.st bit } } }, .norm)
+  | .attrClear, s => .ok ({ s with e := { s.e with cur := { s.e.cur with st := { s.e.cur.st with attr := 0 } } } }, .norm)
+  | .setCol slot c, s =>
+    match c with
+    | .zero => .ok ({ s with e := { s.e with cur := { s.e.cur with st := setPenCol s.e.cur.st slot 0 } } }, .norm)
+    | .index x =>
+      if exOkS s x then
+        .ok ({ s with e := { s.e with cur := { s.e.cur with st := setPenCol s.e.cur.st slot (indexColor (evalEx pm s [] x)) } } }, .norm)
+      else .error .oob
+    | .rgb a b c =>
+      if exOkS s a && exOkS s b && exOkS s c then
+        let col := rgbColor (evalEx pm s [] a) (evalEx pm s [] b) (evalEx pm s [] c)
+        .ok ({ s with e := { s.e with cur := { s.e.cur with st := setPenCol s.e.cur.st slot col } } }, .norm)
+      else .error .oob
+  | .setUl n, s => .ok ({ s with e := { s.e with cur := { s.e.cur with st := { s.e.cur.st with ulStyle := n } } } }, .norm)
+  | .logErr, s => .ok (s, .norm)
+  | .iteP c t f, s =>
+    if condOkS s c then (if evalCond pm s [] c then evalS pm t s else evalS pm f s) else .error .oob
   | .forParams body, s => do
     let s' ← paramLoop (fun p s => do
       let r ← evalS pm body { s with param := p }
@@ -422,6 +504,8 @@ def noUnknown : Stmt → Bool
   | .forTabs b => noUnknown b
   | .forParams b => noUnknown b
   | .forS _ _ _ b => noUnknown b
+  | .forSgr b => noUnknown b
+  | .iteP _ t f => noUnknown t && noUnknown f
   | .forTabsDown b => noUnknown b
   | .unknown _ => false
   | _ => true
@@ -506,6 +590,22 @@ def sLoopWf : Stmt → Bool
   | .forS _ lo hi b => exStable lo && bndStable hi && sLoopWf b
   | _ => false
 
+/-- inside the loop of sgr(): pen statements, branches, `i += c`, `return`; the parameter list is read only relative to `i` -/
+def sgrLoopWf : Stmt → Bool
+  | .skip => true
+  | .seq a b => sgrLoopWf a && sgrLoopWf b
+  | .ite _ t f => sgrLoopWf t && sgrLoopWf f
+  | .iteP _ t f => sgrLoopWf t && sgrLoopWf f
+  | .ret => true
+  | .skipParams _ => true
+  | .attrOn _ => true
+  | .attrOff _ => true
+  | .attrClear => true
+  | .setCol _ _ => true
+  | .setUl _ => true
+  | .logErr => true
+  | _ => false
+
 /-- function level; `tail` = nothing follows this statement in the function -/
 def topWf (tail : Bool) : Stmt → Bool
   | .seq a b => topWf false a && topWf tail b
@@ -518,6 +618,7 @@ def topWf (tail : Bool) : Stmt → Bool
   | .forTabsDown b => tabLoopWf b
   | .forParams b => paramLoopWf b
   | .forS _ lo hi b => exStable lo && bndStable hi && sLoopWf b
+  | .forSgr b => tail && sgrLoopWf b
   | _ => true
 
 def Body.wf (b : Body) : Bool := topWf true b.stmt
